@@ -614,6 +614,21 @@ func ruleNoHeap(c *Ctx) []Ob {
 		}
 		for _, st := range sites {
 			if ex, _ := judge(st.fn, st.l.line); !ex {
+				if strings.HasPrefix(st.l.msg, "append escapes to heap") {
+					ei := analyseEmits(st.fn)
+					okEv, nEv := true, 0
+					for _, ev := range ei.events {
+						if c.Fset.Position(ev.Instr.Pos()).Line == st.l.line {
+							nEv++
+							if !ei.chain[ev.In] {
+								okEv = false
+							}
+						}
+					}
+					if okEv && nEv > 0 {
+						continue
+					}
+				}
 				heapy[st.fn] = append(heapy[st.fn], fmt.Sprintf("%s:%d %s", filepath.Base(st.l.file), st.l.line, st.l.msg))
 			}
 		}
@@ -629,6 +644,32 @@ func ruleNoHeap(c *Ctx) []Ob {
 			if ex, why := judge(st.fn, st.l.line); ex {
 				s.ok(key, pos, "compiler: "+st.l.msg+" - exempt: "+why)
 				continue
+			}
+			// newer compilers report `append escapes to heap` for every append whose result escapes: the possible growth of the
+			// output buffer, which the property's precondition (buffer large enough) excludes. Exempt only appends on the output chain.
+			if strings.HasPrefix(st.l.msg, "append escapes to heap") {
+				ei := analyseEmits(st.fn)
+				nEv, okEv := 0, true
+				for _, ev := range ei.events {
+					if c.Fset.Position(ev.Instr.Pos()).Line == st.l.line {
+						nEv++
+						if !ei.chain[ev.In] {
+							okEv = false
+						}
+					}
+				}
+				// any append at this line that is not an emission on the chain?
+				for _, b := range st.fn.Blocks {
+					for _, ins := range b.Instrs {
+						if call, ok := ins.(*ssa.Call); ok && isBuiltin(call, "append") && c.Fset.Position(call.Pos()).Line == st.l.line && !ei.chain[call.Call.Args[0]] {
+							okEv = false
+						}
+					}
+				}
+				if nEv > 0 && okEv {
+					s.ok(key, pos, "compiler: "+st.l.msg+" - growth of the output buffer itself (append on the output chain; excluded by the precondition that the buffer is large enough)")
+					continue
+				}
 			}
 			// inlined callee: the verdict is reported at the call's position; attribute it to the callee
 			attributed := false
